@@ -364,6 +364,9 @@ type call struct {
 	done   chan struct{}
 	err    error
 	ch     *muc.Channel // the channel the call ran on / returned
+	gid    string       // goroutine running the call
+	// reqIndex: the call's request is the reqIndex-th the room sees for addr
+	reqIndex int
 }
 
 func classifyErr(err error) (class, cond string) {
